@@ -44,6 +44,13 @@ def run(ctx):
     ctx.do(rule_every_function, rule_id="C07.validate-first")
     ctx.do(rule_set_is_clear_then_add)
     ctx.do(rule_normal_form)
+    # the object (or dict) a new version is derived from is left exactly as it was: effect analysis of C13 over the versioning
+    # and marking entry points
+    from . import C13
+    ctx.do(C13.rule_no_param_mutation, rule_id="C07.previous-version-untouched", modules=("stix2.markings.granular_markings", "stix2.markings.object_markings", "stix2.markings.utils", "stix2.markings", "stix2.versioning"), floor=20)
+    from .pitfalls import rule_groupby_sorted, rule_single_use_iterators
+    ctx.do(rule_groupby_sorted, "C07.iterator-pitfalls", ("stix2.markings",))
+    ctx.do(rule_single_use_iterators, "C07.iterator-pitfalls", ("stix2.markings",))
     from .hidden_state import rule_no_hidden_state
     ctx.do(rule_no_hidden_state, "C07.history-independence")
 
@@ -304,6 +311,10 @@ def rule_new_version(ctx):
                     fl = flow_of(fi)
                     pr = fl.prov(v)
                     ok = fi.params[0] in pr.params or bool(pr.calls & set(MUTATORS))
+                    # only where there is nothing to take away: adding / setting always yields a new version ("already
+                    # marked" shortcuts answer for ANY of the selectors/markings, so a partial overlap would be skipped)
+                    if name in ("add_markings", "set_markings"):
+                        ok = False
                 run.check(ok, R, key(rel, fi.qualname, "return:%s" % short(v, 60) if v is not None else "return:None"),
                           "a marking mutator returns something other than a new version / the untouched object", file=rel,
                           line=r.lineno, function=fi.qualname, expected="new_version(obj, ...) | sibling mutator | obj",
